@@ -151,7 +151,7 @@ def _alias_rule(ctx, pkg):
     fn = pkg.method("Species", "alias")
     ctx.saw(SP, "Species.alias")
     # the alias may be assembled by helper methods (also ones that loop: the element-case replacement): what they return is followed
-    fl = Flow(fn, SP, resolver=lambda name: pkg.resolve("Species", name)[1], inline_loops=True)
+    fl = Flow(pkg.expanded("Species", "alias"), SP, resolver=lambda name: pkg.resolve("Species", name)[1], inline_loops=True)
     st = [f for f in fl.facts if f.kind == "attrstore" and f.target == "_alias"]
     out = {"ok": False, "sanitises": False, "line": fn.lineno}
     if not st:
